@@ -351,7 +351,10 @@ func genActivity() *leanFile {
 	}
 
 	// ---- publishActivityEvent: publish, return on error, then record event.Id through Raft
+	// the event is published through the server's own Publish path: the handler itself, or its variant without the client
+	// authorisation check (there is no client)
 	pubPos := callPositions(activityGo, "activityManager.publishActivityEvent", "a.api.Publish")
+	pubPos = append(pubPos, callPositions(activityGo, "activityManager.publishActivityEvent", "a.api.publishInternal")...)
 	recPos := callPositions(activityGo, "activityManager.publishActivityEvent", "a.getRaft().applyOperation")
 	order := len(pubPos) == 1 && len(recPos) == 1 && pubPos[0] < recPos[0]
 	errReturn := false
@@ -374,7 +377,7 @@ func genActivity() *leanFile {
 		})
 	}
 	if !order || !errReturn {
-		lost = append(lost, activityGo+":activityManager.publishActivityEvent: a.api.Publish; if err != nil { return … }; a.getRaft().applyOperation")
+		lost = append(lost, activityGo+":activityManager.publishActivityEvent: a.api.Publish / publishInternal; if err != nil { return … }; a.getRaft().applyOperation")
 	}
 	l.def("recordArgIsEventId", "Bool", boolLit(recordsID), "publishActivityEvent: PublishActivityOp{RaftIndex: event.Id}")
 	ackFromConfig := false
